@@ -280,6 +280,14 @@ class LoopInv(object):
 EFFECT_FREE_NAMES = {"log", "msg", "_log", "log_msg", "noisy"}
 
 
+def _live(lst):
+    """iterate a python list the way CPython does: by index, looking at the list as it is at each step"""
+    i = 0
+    while i < len(lst):
+        yield lst[i]
+        i += 1
+
+
 class Interp(object):
     def __init__(self, path, config=None):
         self.path = path
@@ -1006,6 +1014,8 @@ class Interp(object):
         if spec is not None:
             return self.models.inv_for(self, st, env, globs, clo, spec, it)
         items = self.iterate(it, lazy=True)
+        if isinstance(it, list):
+            items = _live(it)          # CPython iterates a list by live index: a body that edits the list shifts what comes next
         n = 0
         for x in items:
             n += 1
@@ -1022,6 +1032,10 @@ class Interp(object):
 
     def iterate(self, v, lazy=False):
         """value -> python list (or iterator) of element values; shape must be concrete."""
+        if lazy and isinstance(v, SObj) and self.models.listobj(v) is None:
+            lv = self.models.live_passthrough_iter(self, v)
+            if lv is not None:
+                return _live(lv)
         if isinstance(v, SObj) and self.models.listobj(v) is not None:
             return list(self.models.listobj(v))
         if isinstance(v, SObj) and self.models.dictobj(v) is not None:
